@@ -15,6 +15,8 @@ NEIGH = {
 }
 GSS_SUFFIXES = ['dZuIebMjgUqaxvbF7hDbAw==', 'a+b/c0==', 'toWM5Slw5Ew8Mqkay+al2g==']
 UNKNOWN = {'kex': 'frob-kex@example.org', 'key': 'frob-key@example.org', 'enc': 'frob-enc@example.org', 'mac': 'frob-mac@example.org'}
+UNKNOWN_SHAPED = [('enc', 'aes999-cbc'), ('enc', 'chacha20-poly1305@example.org'), ('mac', 'hmac-frob-etm@openssh.com'),
+                  ('kex', 'kex-strict-x-v00@example.org')]
 
 
 def instantiate(cat, name):
@@ -30,6 +32,9 @@ def tasks(tier):
             for inst in instantiate(cat, name):
                 out.append((cat, name, inst))
         out.append((cat, None, UNKNOWN[cat]))
+    # unknown names shaped like the algorithms the Terrapin rule looks for: in a vulnerable context they must still be flagged unknown
+    for cat, name in UNKNOWN_SHAPED:
+        out.append((cat, None, name))
     return out
 
 
